@@ -291,7 +291,51 @@ pub fn dispatch(cfg: &RunCfg, rep: &mut Report) -> bool {
         "C19" => c19::run(cfg, rep),
         "C20" => c20::run(cfg, rep),
         "ST" => selftest::run(cfg, rep),
+        // positive controls of the sanitizer stages (./check selftest --tier thorough): deliberate faults
+        "RACECTL" => sanitizer_control_race(rep),
+        "UAFCTL" => sanitizer_control_uaf(rep),
         _ => return false,
     }
     true
+}
+
+
+struct Racy(std::cell::UnsafeCell<u64>);
+unsafe impl Sync for Racy {}
+
+/// A deliberate data race (two threads, unsynchronised read-modify-write): ThreadSanitizer must report it.
+fn sanitizer_control_race(rep: &mut Report) {
+    let r = std::sync::Arc::new(Racy(std::cell::UnsafeCell::new(0)));
+    let hs: Vec<_> = (0..2)
+        .map(|_| {
+            let r = r.clone();
+            std::thread::spawn(move || {
+                for _ in 0..100_000 {
+                    unsafe {
+                        let p = r.0.get();
+                        std::ptr::write_volatile(p, std::ptr::read_volatile(p) + 1);
+                    }
+                }
+            })
+        })
+        .collect();
+    for h in hs {
+        let _ = h.join();
+    }
+    rep.eval();
+    rep.nontrivial("race-control-a");
+    rep.nontrivial("race-control-b");
+    rep.sample(format!("racy counter ended at {}", unsafe { *r.0.get() }));
+}
+
+/// A deliberate heap use-after-free: AddressSanitizer must report it.
+fn sanitizer_control_uaf(rep: &mut Report) {
+    let v = vec![1u8, 2, 3, 4, 5, 6, 7, 8];
+    let p = v.as_ptr();
+    drop(v);
+    let x = unsafe { std::ptr::read_volatile(p.add(3)) };
+    rep.eval();
+    rep.nontrivial("uaf-control-a");
+    rep.nontrivial("uaf-control-b");
+    rep.sample(format!("read {} from freed memory", x));
 }
